@@ -83,6 +83,14 @@ Record wdesc := mkDesc {
   d_fit_converts : bool      (* fitness hands convert_to_parameters(x) to update_processor *)
 }.
 
+(* what the result of a calibration reports (archipelago_datatree.py) *)
+Record rp_desc := mkRp {
+  rp_champion : bool;        (* champion_parameters = convert_to_parameters(champion_decision) *)
+  rp_best : bool;            (* best_parameters = convert_to_parameters(best_decision) *)
+  rp_final : bool            (* the final pipeline runs (simulated outputs) get champion_parameters, not the decision *)
+}.
+Definition rp_ok (r : rp_desc) : bool := rp_champion r && rp_best r && rp_final r.
+
 (* the description of the unchanged tree (translator FALLBACK; examples) *)
 Definition desc_as_coded : wdesc :=
   mkDesc WLen
@@ -287,6 +295,12 @@ Section Generic.
     end.
 
   Definition g_assign (d : up_desc) (vs : list var) (p : list A) := g_assign_from d (up_a0 d) vs p.
+
+  (* ---- what is reported for a decision vector x of an island, and what the final run of that island gets *)
+  Definition g_reported (conv : bool) (d : wdesc) (vs : list var) (x : list A) : list A :=
+    if conv then g_convert (d_cv d) vs x else x.
+  Definition g_final_applied (r : rp_desc) (d : wdesc) (vs : list var) (x : list A) :=
+    g_assign (d_up d) vs (g_reported (rp_final r) d vs x).
 
   (* ================================================================== object store and histories *)
 
